@@ -348,12 +348,13 @@ impl MethodDescriptorSlice {
 			bail!("method descriptor {self:?} doesn't start with '('");
 		}
 
-		let mut size = 1; // implicit `this` argument
+		let mut size: u8 = 1; // implicit `this` argument
+		let too_large = || anyhow!("the arguments of method descriptor {self:?} take more than 255 slots");
 		loop {
 			if chars.next_if_eq(&')').is_some() {
 				break;
 			} else if chars.next_if(|&x| x == 'D' || x == 'J').is_some() {
-				size += 2;
+				size = size.checked_add(2).ok_or_else(too_large)?;
 			} else {
 				while chars.next_if_eq(&'[').is_some() { };
 
@@ -366,7 +367,7 @@ impl MethodDescriptorSlice {
 					}
 				}
 
-				size += 1;
+				size = size.checked_add(1).ok_or_else(too_large)?;
 			}
 		}
 
